@@ -685,11 +685,185 @@ class SymtabK(Kind):
         return "o=%d" % x["_sb"]["o"]
 
 
+def member_dt(rng, allow_nested=True, depth=0):
+    """a member datatype the decoder can delimit: fixed, float, or a nested version-3 compound"""
+    r = rng.random()
+    if allow_nested and depth < 2 and r < 0.15:
+        return {"class": 6, "version": 3, "size": rng.choice([4, 12, 40]), "cbf": 0, "props": gen_compound_v3_props(rng, depth + 1).hex()}
+    cls, size, cbf = gen_simple_dt(rng)
+    return {"class": cls, "version": 1, "size": size, "cbf": cbf, "props": py_numeric_props(cls, size, cbf).hex()}
+
+
+def greedy_dt(rng):
+    cls = rng.choice([3, 3, 7, 5])
+    if cls == 3:
+        return {"class": 3, "version": 1, "size": rng.choice([1, 8, 100]), "cbf": rng.choice([0, 1, 0x11]), "props": "00"}
+    if cls == 7:
+        return {"class": 7, "version": 1, "size": 8, "cbf": 0, "props": ""}
+    return {"class": 5, "version": 1, "size": 16, "cbf": 8, "props": rbytes(rng, 8, True).hex()}
+
+
+class CompoundK(Kind):
+    name = "compound"
+    imports = "Model.CodecType Model.CodecCompound"
+    greedy_inside = False
+
+    def __init__(self):
+        self.dtk = DatatypeK()
+
+    def gen(self, rng, i):
+        ver = 3 if i % 3 else 1
+        n = rng.choice([1, 1, 2, 3, 4, 8])
+        fields, off = [], 0
+        for k in range(n):
+            nl = rng.choice([1, 1, 2, 6, 7, 8, 9, 15, 16, 17, 40])
+            dt = member_dt(rng, allow_nested=(ver == 3))
+            fields.append(dict(name=rbytes(rng, nl, nonzero=True).hex(), offset=off, dt=dt))
+            off += dt["size"]
+        if self.greedy_inside:
+            fields.insert(rng.randrange(0, len(fields)), dict(name=rbytes(rng, 3, True).hex(), offset=off, dt=greedy_dt(rng)))
+        elif rng.random() < 0.3:
+            fields.append(dict(name=rbytes(rng, 2, True).hex(), offset=off, dt=greedy_dt(rng)))     # last: harmless
+        return dict(version=ver, size=rng.choice([off or 1, 1, (1 << 32) - 1]), fields=fields)
+
+    def invalid(self, rng):
+        ok = self.gen(rng, 1)
+        return [dict(ok, fields=[]), dict(ok, size=0), dict(ok, fields=[dict(ok["fields"][0], name="")])]
+
+    def coq(self, x):
+        fs = cl("{| fd_name := %s; fd_offset := %s; fd_type := %s |}" % (cbytes(f["name"]), cn(f["offset"]), self.dtk.coq(f["dt"])) for f in x["fields"])
+        return "{| cp_version := %d; cp_size := %s; cp_fields := %s |}" % (x["version"], cn(x["size"]), fs)
+    def enc_expr(self, x):
+        return "enc_compound " + self.coq(x)
+    def encok_expr(self, x):
+        return "encok_compound " + self.coq(x)
+    def dec_expr(self, hexs, sb):
+        return "oval val_compound' (dec_compound %s)" % cbytes(hexs)
+    def proj(self, x):
+        ms = [[f["name"], f["offset"], [f["dt"]["class"], f["dt"]["version"], f["dt"]["size"], f["dt"]["cbf"], f["dt"]["props"]]] for f in x["fields"]]
+        return [x["version"], len(x["fields"]) if x["version"] == 1 else 0, x["size"], ms]
+    def shape(self, x):
+        return "v=%d,n=%d,classes=%s" % (x["version"], len(x["fields"]), "".join(str(f["dt"]["class"]) for f in x["fields"]))
+
+
+class CompoundGreedy(CompoundK):
+    """a member of a class whose extent the decoder cannot determine (string, reference, opaque) before the last member"""
+    label = "compound_greedy_member"
+    greedy_inside = True
+    def invalid(self, rng):
+        return []
+
+
+class ArrayK(Kind):
+    name = "array"
+    imports = "Model.CodecType Model.CodecCompound"
+
+    def gen(self, rng, i):
+        base = py_enc_simple_dt(*gen_simple_dt(rng, classes=(0, 1, 3)))
+        rank = [1, 2, 3, 32, 255][i] if i < 5 else rng.choice([1, 1, 2, 3, 4])
+        return dict(base=base.hex(), dims=[pick_u32(rng) for _ in range(rank)], size=pick_u32(rng))
+    def invalid(self, rng):
+        ok = self.gen(rng, 10)
+        return [dict(ok, dims=[]), dict(ok, base=""), dict(ok, dims=[1 << 32]), dict(ok, dims=[1] * 256)]
+    def coq(self, x):
+        return "{| ar_base := %s; ar_dims := %s; ar_size := %s |}" % (cbytes(x["base"]), cNl(x["dims"]), cn(x["size"]))
+    def enc_expr(self, x):
+        return "enc_array " + self.coq(x)
+    def encok_expr(self, x):
+        return "encok_array " + self.coq(x)
+    def wf_expr(self, x):
+        return "wf_array " + self.coq(x)
+    def dec_expr(self, hexs, sb):
+        return "oval val_datatype (dec_datatype %s)" % cbytes(hexs)
+    def proj(self, x):
+        props = bytes([len(x["dims"])]) + b"".join(le(4, d) for d in x["dims"]) + bytes.fromhex(x["base"])
+        return [10, 3, x["size"], 0, props.hex()]
+    def shape(self, x):
+        return "rank=%d" % len(x["dims"])
+
+
+class EnumK(Kind):
+    name = "enum"
+    imports = "Model.CodecType Model.CodecCompound"
+
+    def gen(self, rng, i):
+        es = rng.choice([1, 2, 4, 8])
+        base = py_enc_simple_dt(0, es, 8)
+        n = rng.choice([1, 2, 3, 5, 16])
+        names = [rbytes(rng, rng.choice([0, 1, 6, 7, 8, 9, 15, 16, 30]), nonzero=True).hex() for _ in range(n)]
+        values = rbytes(rng, n * es + rng.choice([0, 0, 3]))
+        return dict(base=base.hex(), names=names, values=values.hex(), size=es)
+    def invalid(self, rng):
+        ok = self.gen(rng, 0)
+        return [dict(ok, names=[]), dict(ok, base=""), dict(ok, values="")]
+    def coq(self, x):
+        return "{| en_base := %s; en_names := %s; en_values := %s; en_size := %d |}" % (
+            cbytes(x["base"]), cl(cbytes(n) for n in x["names"]), cbytes(x["values"]), x["size"])
+    def enc_expr(self, x):
+        return "enc_enum " + self.coq(x)
+    def encok_expr(self, x):
+        return "encok_enum " + self.coq(x)
+    def wf_expr(self, x):
+        return "wf_enum " + self.coq(x)
+    def dec_expr(self, hexs, sb):
+        return "oval val_datatype (dec_datatype %s)" % cbytes(hexs)
+    def proj(self, x):
+        es, vals = x["size"], bytes.fromhex(x["values"])
+        props = bytes.fromhex(x["base"])
+        for i, n in enumerate(x["names"]):
+            nm = bytes.fromhex(n)
+            nl = len(nm) + 1
+            props += nm + bytes((nl + 7) // 8 * 8 - len(nm)) + vals[i * es:(i + 1) * es]
+        return [8, 3, es, len(x["names"]), props.hex()]
+    def shape(self, x):
+        return "n=%d,es=%d" % (len(x["names"]), x["size"])
+
+
+class FilterPipeK(Kind):
+    name = "filterpipe"
+    imports = "Model.CodecFilter"
+    NAMES = [b"", b"deflate", b"shuffle", b"fletcher32", b"lzf", b"12345678", b"123456789", b"x" * 16, b"y" * 255]
+
+    def gen(self, rng, i):
+        n = [1, 1, 2, 3, 255][i] if i < 5 else rng.choice([1, 1, 2, 2, 3, 4, 6])
+        fs = []
+        for _ in range(n):
+            nm = rng.choice(self.NAMES) if rng.random() < 0.8 else rbytes(rng, rng.randint(1, 20), nonzero=True)
+            if n > 20:
+                nm = nm[:8]
+            cd = [pick_u32(rng) for _ in range(rng.choice([0, 0, 1, 1, 2, 3, 4, 7]))]
+            fs.append(dict(id=rng.choice([1, 2, 3, 4, 5, 6, 307, 32000, 255, 256, 65535]), name=nm.hex(),
+                           flags=rng.choice([0, 1, 0xFF, 0xFFFF]), cd=cd))
+        return dict(filters=fs)
+
+    def go(self, x):
+        return x["filters"]
+    def invalid(self, rng):
+        return [dict(filters=[])]
+    def coq(self, x):
+        return cl("{| wf_id := %d; wf_name := %s; wf_flags := %d; wf_cd := %s |}" % (f["id"], cbytes(f["name"]), f["flags"], cNl(f["cd"]))
+                  for f in x["filters"])
+    def enc_expr(self, x):
+        return "enc_pipeline " + self.coq(x)
+    def encok_expr(self, x):
+        return "encok_pipeline " + self.coq(x)
+    def wf_expr(self, x):
+        return "wf_pipeline " + self.coq(x)
+    def dec_expr(self, hexs, sb):
+        return "oval val_pipeline' (dec_pipeline %s)" % cbytes(hexs)
+    def proj(self, x):
+        fs = [[f["id"], len(f["name"]) // 2, f["flags"], len(f["cd"]), f["name"], [list(f["cd"])] if f["cd"] else []] for f in x["filters"]]
+        return [2, len(fs), fs]
+    def shape(self, x):
+        return "n=%d" % len(x["filters"])
+
+
 KINDS = [Dataspace(), Layout(), DatatypeK(), DatatypeVlen(), AttributeK(), SuperblockK(), OhdrV2(), OhdrV1(),
-         LinkK(), LinkInfoK(), AttrInfoK(), SymtabK()]
+         LinkK(), LinkInfoK(), AttrInfoK(), SymtabK(), CompoundK(), CompoundGreedy(), ArrayK(), EnumK(), FilterPipeK()]
 
 # kinds whose encoder/decoder pair is known not to round-trip: id of the KNOWN_FINDINGS entry
-KNOWN_ROUNDTRIP = {"datatype_vlen": "C11-vlen-datatype-header", "ohdr_v1": "C11-ohdr-v1-size-field"}
+KNOWN_ROUNDTRIP = {"datatype_vlen": "C11-vlen-datatype-header", "ohdr_v1": "C11-ohdr-v1-size-field",
+                   "compound_greedy_member": "C11-compound-member-extent"}
 
 
 # ------------------------------------------------------------------------------------------------ malformed stream
